@@ -75,7 +75,9 @@ def run(tier, argv):
     tr0, _ = stepper.generate({"x": 0.5}, 0.0)
     trd, _ = dyadic.generate({"y": jnp.asarray(1)}, jnp.asarray(0))
     full_cache = {}
-    for (_, n, burn, thin, chains, kept, accepts, rnum, rden) in cases:
+    for n_case, (_, n, burn, thin, chains, kept, accepts, rnum, rden) in enumerate(cases):
+        if n_case and n_case % 40 == 0:
+            jax.clear_caches()      # every grid point compiles its own scans: thousands of executables exhaust the process's mapped memory
         ck = f"chain|n={n}|burn={burn}|thin={thin}|chains={chains}"
         chk.case(ck)
         chk.validated(1)
